@@ -364,6 +364,11 @@ func leafAssume(x *Term, l Leaf) []*Term {
 			}
 			return nil
 		}
+		if l.Kind == LRef || l.Kind == LSBase {
+			// unknown references are non-negative, objects allocated by the execution have
+			// negative constant ids: remembered so that Select can tell them apart
+			knownNonNeg[x] = true
+		}
 		return []*Term{Le(IntC(0), x)}
 	}
 	return nil
